@@ -128,7 +128,17 @@ func c13CLI(c *Ctx, n int) error {
 			{"reverse", func(s *SchedConfig) { s.MapMode = "reverse" }},
 			{"random", func(s *SchedConfig) { s.MapMode = "random" }},
 			{"clock-yearstraddle", func(s *SchedConfig) { s.ClockMode = "yearstraddle" }},
-			{"all-mix", func(s *SchedConfig) { s.MapMode = "mix"; s.ClockMode = "mix"; s.IdentMode = "vary" }},
+			{"all-mix", func(s *SchedConfig) {
+				s.MapMode, s.ClockMode, s.IdentMode = "mix", "mix", "vary"
+				if bubbleOn {
+					s.GoMode = "mix"
+				}
+			}},
+			{"go-random", func(s *SchedConfig) {
+				if bubbleOn {
+					s.GoMode = "random"
+				}
+			}},
 		}
 		for k, cf := range cfgs {
 			cfg := s0()
